@@ -2,6 +2,11 @@ open Model
 open Conv
 open A07lib
 
+(* passes field: "<p>" or "<p>L" (provider with preload: the deliveries must be the same) *)
+let passes_of (p : string) : int =
+  let n = String.length p in
+  if n > 0 && p.[n - 1] = 'L' then int_of_string (String.sub p 0 (n - 1)) else int_of_string p
+
 let count_req toks = List.length (List.filter (function TR _ -> true | _ -> false) toks)
 
 (* non-trivial: at least two requests and the case meets the hypotheses of the round-trip
@@ -21,7 +26,7 @@ let predict (c : string) (obs : string) : string * string * bool =
       if render_uri items (bool_of_field fin) <> fileb then ("render-mismatch", "BAD:render-mismatch", false)
       else begin
         let n = count_req toks in
-        let k = int_of_string p * n + 1 in
+        let k = passes_of p * n + 1 in
         let pred = print_run bld_entry k (uri_decode url_parse max_token cfg0 (nat_of_int k) fileb) in
         let want = print_expected bld_entry k (uri_entries (List.map fst items) []) in
         let wf = List.for_all (wf_uitem url_parse max_token) items in
@@ -37,7 +42,7 @@ let predict (c : string) (obs : string) : string * string * bool =
       if render_uripost items (bool_of_field fin) <> fileb then ("render-mismatch", "BAD:render-mismatch", false)
       else begin
         let n = count_req toks in
-        let k = int_of_string p * n + 1 in
+        let k = passes_of p * n + 1 in
         let pred = print_run bld_entry k (uripost_decode url_parse cfg0 (nat_of_int k) fileb) in
         let want = print_expected bld_entry k (uripost_entries (List.map fst items) []) in
         finish obs k pred want n (List.for_all (wf_pitem url_parse) items)
@@ -52,7 +57,7 @@ let predict (c : string) (obs : string) : string * string * bool =
       if render_raw items (bool_of_field fin) <> fileb then ("render-mismatch", "BAD:render-mismatch", false)
       else begin
         let n = count_req toks in
-        let k = int_of_string p * n + 1 in
+        let k = passes_of p * n + 1 in
         let pred = print_run bld_raw k (raw_decode cfg0 (nat_of_int k) fileb) in
         let want = print_expected bld_raw k (raw_entries (List.map fst items)) in
         finish obs k pred want n (List.for_all wf_ritem items)
@@ -61,7 +66,7 @@ let predict (c : string) (obs : string) : string * string * bool =
       let ents = List.map parse_entity toks in
       let fileb = bytes_of_hex file in
       let n = List.length ents in
-      let k = int_of_string p * n + 1 in
+      let k = passes_of p * n + 1 in
       let is_arr = bool_of_field arr in
       (* the JSON text is an oracle: it must decode to the entities of the case *)
       let oracle_ok = (match json_file fileb with
